@@ -16,7 +16,7 @@
 mod kit;
 
 use std::io::{Read, Write};
-use std::net::{Shutdown, SocketAddr, TcpListener, TcpStream};
+use std::net::{Shutdown, TcpListener, TcpStream};
 use std::sync::atomic::{AtomicBool, AtomicUsize, Ordering};
 use std::sync::{Arc, Condvar, Mutex};
 use std::time::{Duration, Instant};
@@ -260,7 +260,7 @@ fn sizes(big: bool, rng: &mut Rng) -> u64 {
 /// One session. Returns (reset line, the four event lists, description).
 fn run_session(lane: &Lane, run: u64, seed: u64, big: bool) -> Result<(Value, [Vec<Value>; 4]), String> {
     let mut rng = Rng(seed);
-    let mode_i = [0usize, 0, 0, 0, 0, 1, 2, 3][rng.below(8) as usize].min(lane.clusters.len() - 1);
+    let mode_i = [0usize, 0, 0, 0, 1, 2, 3, 4, 4][rng.below(9) as usize].min(lane.clusters.len() - 1);
     let (mode, cl, bl) = &lane.clusters[mode_i];
     let scenario = ["complete", "complete", "back_fin", "front_fin"][rng.below(4) as usize];
     let mut n_c = sizes(big, &mut rng);
@@ -313,8 +313,9 @@ fn run_session(lane: &Lane, run: u64, seed: u64, big: bool) -> Result<(Value, [V
         }
         _ => {}
     }
-    if mode == "expect" && n_c == 0 {
-        // nothing else would make sozu open the backend connection before the accept below; the header did
+    if mode == "ws" {
+        cw0.write_all(b"GET /ws HTTP/1.1\r\nHost: localhost\r\nUpgrade: websocket\r\nConnection: Upgrade\r\nSec-WebSocket-Key: dGhlIHNhbXBsZSBub25jZQ==\r\nSec-WebSocket-Version: 13\r\n\r\n")
+            .map_err(|e| e.to_string())?;
     }
     bl.set_nonblocking(true).ok();
     let t0 = Instant::now();
@@ -332,6 +333,33 @@ fn run_session(lane: &Lane, run: u64, seed: u64, big: bool) -> Result<(Value, [V
     };
     backend.set_nonblocking(false).ok();
     let _ = backend.set_nodelay(true);
+    if mode == "ws" {
+        // HTTP upgrade handshake, byte by byte so that nothing of the relayed streams is consumed here
+        let until_blank = |s: &TcpStream| -> Result<Vec<u8>, String> {
+            let mut s = s.try_clone().map_err(|e| e.to_string())?;
+            s.set_read_timeout(Some(Duration::from_secs(6))).ok();
+            let mut acc = Vec::new();
+            let mut b = [0u8; 1];
+            while !acc.ends_with(b"\r\n\r\n") {
+                match s.read(&mut b) {
+                    Ok(1) => acc.push(b[0]),
+                    Ok(_) => return Err("connection closed during the upgrade handshake".into()),
+                    Err(e) => return Err(format!("upgrade handshake: {e}")),
+                }
+                if acc.len() > 8192 {
+                    return Err("upgrade handshake: no end of headers".into());
+                }
+            }
+            Ok(acc)
+        };
+        until_blank(&backend)?;
+        let mut bw0 = backend.try_clone().map_err(|e| e.to_string())?;
+        bw0.write_all(b"HTTP/1.1 101 Switching Protocols\r\nUpgrade: websocket\r\nConnection: Upgrade\r\n\r\n").map_err(|e| e.to_string())?;
+        let resp = until_blank(&client)?;
+        if !resp.starts_with(b"HTTP/1.1 101") {
+            return Err(format!("upgrade refused: {}", String::from_utf8_lossy(&resp[..resp.len().min(60)])));
+        }
+    }
 
     let gate = Gate::new();
     let (plan_c, plan_b, c_eof, b_eof, gate_owner) = match scenario {
@@ -395,6 +423,24 @@ fn main() {
                 },
                 Err(e) => {
                     setup_err = Some(e);
+                    break 'setup;
+                }
+            }
+        }
+        // an HTTP listener whose sessions become pipes after a WebSocket upgrade
+        {
+            let front = kit::free_addr_fam(false);
+            let back = kit::free_addr_fam(false);
+            let id = format!("c18d-ws-{t}");
+            let tmo = Duration::from_secs(5);
+            let okk = w.add_http_listener(front, tmo)
+                && vh::worker::ok(&w.request(RequestType::AddCluster(Worker::default_cluster(&id)), tmo))
+                && vh::worker::ok(&w.request(RequestType::AddHttpFrontend(Worker::http_frontend(&id, front, "localhost", "/")), tmo))
+                && vh::worker::ok(&w.request(RequestType::AddBackend(Worker::backend(&id, &format!("{id}-b"), back)), tmo));
+            match (okk, TcpListener::bind(back)) {
+                (true, Ok(l)) => clusters.push(("ws".to_string(), kit::ClusterAddrs { id, front, back }, l)),
+                _ => {
+                    setup_err = Some("websocket cluster setup failed".into());
                     break 'setup;
                 }
             }
